@@ -61,6 +61,7 @@ func runC01(c *simkit.Ctx) {
 		nonce := uint32(1)
 		ts := twin.Now
 		crashedInside, appliedAfter := false, false
+		ontBal := map[common.Address]uint64{twin.Book.Address: 1000000000} // harness view of ONT balances (gas price 0 transfers only)
 
 		compare := func(where string, sig string) {
 			vs, err := victim.Snap(true)
@@ -99,7 +100,7 @@ func runC01(c *simkit.Ctx) {
 				if t.Prob(1, 4) {
 					asset = "ong"
 				}
-				amt := uint64(t.Pick(1, 4, 4, 1)) // 0, small, medium, huge
+				amt := uint64(t.Pick(1, 4, 4, 1, 2)) // 0, small, medium, huge, the sender's whole balance
 				switch amt {
 				case 1:
 					amt = uint64(1 + t.Choose(50))
@@ -107,10 +108,21 @@ func runC01(c *simkit.Ctx) {
 					amt = uint64(1000 + t.Choose(100000))
 				case 3:
 					amt = 2000000000
+				case 4:
+					// emptying an account deletes its balance key: a deletion in the block's write set
+					amt = ontBal[from.addr]
+					asset = "ont"
+					if amt > 0 {
+						c.Probe("account_emptied")
+					}
 				}
 				gasPrice := uint64(0)
 				if t.Prob(1, 6) {
 					gasPrice = 500
+				}
+				if asset == "ont" && gasPrice == 0 && amt > 0 && ontBal[from.addr] >= amt {
+					ontBal[from.addr] -= amt
+					ontBal[to.addr] += amt
 				}
 				m, err := world.TransferTx(asset, from.addr, to.addr, amt, gasPrice, 20000, nonce, from.addr)
 				c.Must(err, "build transfer")
